@@ -136,8 +136,8 @@ static void run_plan(const struct plan *p, struct outcome *o, int verbose)
 				fclose(f);
 			}
 		} else if (o->exitcode == 77) {
-			id = "C18.memory";
-			snprintf(extra, sizeof(extra), "sanitizer abort (exit 77) without report callback (UBSan or nested report)");
+			id = "ANY.ub";
+			snprintf(extra, sizeof(extra), "sanitizer abort (exit 77) without an ASan report: undefined behaviour caught by UBSan (signed overflow, bad shift, ...) or a nested report");
 		} else if (o->sig == SIGALRM) {
 			id = "ANY.hang";
 			snprintf(extra, sizeof(extra), "no progress in real time (watchdog)");
